@@ -167,6 +167,34 @@ pub fn parse(text: &str) -> Result<Decl, String> {
     Ok(d)
 }
 
+/// RUST_KEYWORDS of the reference (strict + reserved), the list the exporter itself uses
+const RUST_KEYWORDS: &[&str] = &[
+    "as", "async", "await", "break", "const", "continue", "crate", "dyn", "else", "enum", "extern", "false", "fn", "for", "if", "impl", "in",
+    "let", "loop", "match", "mod", "move", "mut", "pub", "ref", "return", "self", "Self", "static", "struct", "super", "trait", "true", "type",
+    "unsafe", "use", "where", "while", "abstract", "become", "box", "do", "final", "macro", "override", "priv", "try", "typeof", "unsized",
+    "virtual", "yield",
+];
+
+/// `[A-Za-z_][A-Za-z0-9_]*`; non-ASCII characters are not judged (counted as identifier characters)
+fn ident_shape(s: &str) -> bool {
+    let mut it = s.chars();
+    match it.next() {
+        Some(c) if c.is_ascii_alphabetic() || c == '_' || !c.is_ascii() => {}
+        _ => return false,
+    }
+    it.all(|c| c.is_ascii_alphanumeric() || c == '_' || !c.is_ascii())
+}
+pub fn plain_ident_ok(s: &str) -> bool {
+    ident_shape(s) && s != "_" && !RUST_KEYWORDS.contains(&s)
+}
+/// a field may be a raw identifier; rustc rejects r#self, r#Self, r#crate, r#super
+pub fn field_ident_ok(s: &str) -> bool {
+    match s.strip_prefix("r#") {
+        Some(w) => ident_shape(w) && w != "_" && !["self", "Self", "crate", "super"].contains(&w),
+        None => plain_ident_ok(s),
+    }
+}
+
 /// O-C17 on the implementation's declarations: every name of the generated type is unique and every
 /// `super::X::Entity` names a table of the slice.
 pub fn oracle(d: &Decl, tables: &[String]) -> Vec<String> {
@@ -176,6 +204,9 @@ pub fn oracle(d: &Decl, tables: &[String]) -> Vec<String> {
         let n = match m {
             Member::Col { field, .. } | Member::Rel { field, .. } => field,
         };
+        if !field_ident_ok(n) {
+            bad.push(format!("invalid-field:{}", n));
+        }
         if !seen.insert(n.clone()) {
             bad.push(format!("duplicate-field:{}", n));
         }
@@ -183,6 +214,9 @@ pub fn oracle(d: &Decl, tables: &[String]) -> Vec<String> {
     let mut re = std::collections::BTreeSet::new();
     for m in &d.members {
         if let Member::Rel { relation_enum: Some(e), .. } = m {
+            if !plain_ident_ok(e) {
+                bad.push(format!("invalid-relation-enum:{}", e));
+            }
             if !re.insert(e.clone()) {
                 bad.push(format!("duplicate-relation-enum:{}", e));
             }
@@ -198,8 +232,14 @@ pub fn oracle(d: &Decl, tables: &[String]) -> Vec<String> {
         if !en.insert(name.clone()) {
             bad.push(format!("duplicate-enum-type:{}", name));
         }
+        if !plain_ident_ok(name) {
+            bad.push(format!("invalid-enum-type:{}", name));
+        }
         let mut vs = std::collections::BTreeSet::new();
         for v in vars {
+            if !plain_ident_ok(v) {
+                bad.push(format!("invalid-variant:{}::{}", name, v));
+            }
             if !vs.insert(v.clone()) {
                 bad.push(format!("duplicate-variant:{}::{}", name, v));
             }
